@@ -15,7 +15,7 @@ var constructs = recipe.Constructs()
 
 var idNames = []string{"x", "y", "foo", "T", "i", "err", "ok", "_", "a1", "é", "f", "v", "String", "len", "0XFF", "1E6", "0B1010", "0O17", "0X1P-2", "1_000", "0x1F", "017", "1i"}
 var opNames = []string{"+", "-", "*", "/", ":=", "=", "==", "!=", "<", "&&", "||", "!", "&", "<-", "...", ":", ";", ".", ",", "++", "+=", "|", "~", "(", ")", "{", "}"}
-var hostileStr = []string{"", " ", "\n", "\"", "`", "//", "/*", "*/", "{", "}", "a b", "x\ny", "\x00", "\xff", "日本", "package", "func()", "1e", "0x", "'", "\\", "\t", ";"}
+var hostileStr = []string{"%d", "100%", "%%", "%!s(MISSING)", "", " ", "\n", "\"", "`", "//", "/*", "*/", "{", "}", "a b", "x\ny", "\x00", "\xff", "日本", "package", "func()", "1e", "0x", "'", "\\", "\t", ";"}
 var paths = []string{"fmt", "os", "math/rand", "crypto/rand", "a/d", "b/d", "x.y/z", "github.com/u/pkg", "C", "", "strings", "a/b/v2"}
 
 // Str draws a string argument: mostly plausible for its role, sometimes arbitrary.
@@ -199,7 +199,7 @@ func Expr(t *rapid.T, depth int) *recipe.Node {
 	}
 	switch rapid.IntRange(0, 9).Draw(t, "exprkind") {
 	case 0:
-		return Expr(t, depth-1).C("Op", rapid.SampledFrom([]string{"+", "-", "*", "==", "&&", "<"}).Draw(t, "binop")).Add(Expr(t, depth-1))
+		return Expr(t, depth-1).C("Op", rapid.SampledFrom([]string{"+", "-", "*", "==", "&&", "<", "%", "&^", "<<"}).Draw(t, "binop")).Add(Expr(t, depth-1))
 	case 1:
 		return Expr(t, 0).C("Call", exprs(t, depth-1, 0, 3))
 	case 2:
@@ -251,7 +251,7 @@ func Stmt(t *rapid.T, depth int) *recipe.Node {
 	}
 	switch rapid.IntRange(0, 9).Draw(t, "stmtkind") {
 	case 0:
-		return recipe.Id(rapid.SampledFrom([]string{"x", "y"}).Draw(t, "lhs")).C("Op", rapid.SampledFrom([]string{":=", "=", "+="}).Draw(t, "asg")).Add(Expr(t, depth-1))
+		return recipe.Id(rapid.SampledFrom([]string{"x", "y"}).Draw(t, "lhs")).C("Op", rapid.SampledFrom([]string{":=", "=", "+=", "%=", "&^="}).Draw(t, "asg")).Add(Expr(t, depth-1))
 	case 1:
 		return recipe.S().C("If", Expr(t, depth-1)).C("Block", Stmts(t, depth-1, 2))
 	case 2:
@@ -312,11 +312,11 @@ func FileSettings(t *rapid.T) *recipe.File {
 	f := &recipe.File{}
 	switch rapid.IntRange(0, 2).Draw(t, "ctor") {
 	case 0:
-		f.Ctor, f.Args = "NewFile", []recipe.Text{recipe.Text(rapid.SampledFrom([]string{"p", "main", "foo"}).Draw(t, "pkg"))}
+		f.Ctor, f.Args = "NewFile", []recipe.Text{recipe.Text(rapid.SampledFrom([]string{"p", "main", "foo", "p", "main", "", "1x", "a b", "go", "ünï"}).Draw(t, "pkg"))}
 	case 1:
 		f.Ctor, f.Args = "NewFilePath", []recipe.Text{recipe.Text(rapid.SampledFrom([]string{"a/d", "x.y/z", "github.com/u/pkg", "mypkg"}).Draw(t, "lpath"))}
 	case 2:
-		f.Ctor, f.Args = "NewFilePathName", []recipe.Text{recipe.Text(rapid.SampledFrom([]string{"a/d", "x.y/z", "b/d"}).Draw(t, "lpath2")), recipe.Text(rapid.SampledFrom([]string{"p", "main"}).Draw(t, "pkg2"))}
+		f.Ctor, f.Args = "NewFilePathName", []recipe.Text{recipe.Text(rapid.SampledFrom([]string{"a/d", "x.y/z", "b/d"}).Draw(t, "lpath2")), recipe.Text(rapid.SampledFrom([]string{"p", "main", "p", "", "x-y"}).Draw(t, "pkg2"))}
 	}
 	op := func(name string, args ...string) {
 		o := recipe.FileOp{Op: name}
